@@ -433,7 +433,9 @@ func (fi *FuncInfo) Visit(node ast.Node) ast.Visitor {
 		}
 		return fi
 	case *ast.RangeStmt:
-		if _, ok := fi.pkgInfo.TypeOf(n.X).Underlying().(*types.Chan); ok {
+		// In a generic function the range operand may have a type parameter
+		// type, resolve it to the type argument of this instance first.
+		if _, ok := fi.resolver.Substitute(fi.pkgInfo.TypeOf(n.X)).Underlying().(*types.Chan); ok {
 			// for-range loop over a channel is blocking.
 			fi.markBlocking(fi.visitorStack)
 		}
